@@ -159,8 +159,40 @@ def interval(body, e, depth=0, env=None):
     if k == 'phi':
         out = None
         first = True
-        for a in e[2]:
+        b2 = body.facts.bodies.get(e[5], body) if len(e) > 5 and e[5] else body
+        for a, where in zip(e[2], e[4]):
             iv = interval(body, a, depth + 1, env)
+            # branch refinement: the branch value itself is compared with a constant on the edge that selects it
+            try:
+                at = render(strip(a, transparent=False))
+                for (_, d, v) in (b2.branch_conditions(where) if len(e) <= 6 or e[6] is None else []):
+                    ds = strip(d, transparent=False)
+                    if ds[0] != 'binop' or ds[1] not in ('Lt', 'Le', 'Gt', 'Ge'):
+                        continue
+                    truth = (isinstance(v, tuple) and 0 in v[1]) or (not isinstance(v, tuple) and v and 0 not in v)
+                    l, r = strip(ds[2], transparent=False), strip(ds[3], transparent=False)
+                    op = ds[1]
+                    if render(r) == at and l[0] == 'const':
+                        l, r = r, l
+                        op = {'Lt': 'Gt', 'Gt': 'Lt', 'Le': 'Ge', 'Ge': 'Le'}[op]
+                    if render(l) != at or r[0] != 'const' or not isinstance(r[2], int):
+                        continue
+                    if not truth:
+                        op = {'Lt': 'Ge', 'Ge': 'Lt', 'Gt': 'Le', 'Le': 'Gt'}[op]
+                    c = r[2]
+                    lo, hi = iv if iv is not None else (-2**200, 2**200)
+                    if op == 'Lt':
+                        hi = min(hi, c - 1)
+                    elif op == 'Le':
+                        hi = min(hi, c)
+                    elif op == 'Gt':
+                        lo = max(lo, c + 1)
+                    elif op == 'Ge':
+                        lo = max(lo, c)
+                    if lo > -2**200 and hi < 2**200:
+                        iv = (lo, hi)
+            except Exception:
+                pass
             if iv is None:
                 return None
             out = iv if first else union(out, iv)
